@@ -410,7 +410,15 @@ def check_transpose(rep, pdb, walks, key):
                 "early return at %s" % loc(rets[0]))
     det = "alloc (cols, rows, nonzero)=%s walk statements=%d" % (alloc, len(walks.get("transpose", [])))
     if ok:
-        (c1, i1, j1), (sr, i2, j2), (sv, i3, j3), (c2, i4, j4) = walks["transpose"]
+        (c1, i1, j1), w2, w3, w4 = walks["transpose"]
+        # the three statements of the scatter loop, by what they write (their order is checked below, not assumed)
+        _rest = [w2, w3, w4]
+        _sr = [w_ for w_ in _rest if w_[0].kind == "set" and w_[0].target == ("field", at, "row_index")]
+        _sv = [w_ for w_ in _rest if w_[0].kind == "set" and w_[0].target == ("field", at, "val")]
+        _c2 = [w_ for w_ in _rest if w_[0].kind == "upd"]
+        if len(_sr) == 1 and len(_sv) == 1 and len(_c2) == 1:
+            w2, w3, w4 = _sr[0], _sv[0], _c2[0]
+        (sr, i2, j2), (sv, i3, j3), (c2, i4, j4) = w2, w3, w4
         r1 = ("idx", RI, j1)
         cnt = c1.target
         okc = c1.kind == "upd" and c1.op == "+=" and c1.value == num(1) and c1.index == r1
@@ -431,8 +439,9 @@ def check_transpose(rep, pdb, walks, key):
                 others = [e for e in effs if e.target == T_ and e not in acc]
                 tb = ctx.binds.get(T_[1])
                 rec = len(acc) == 1 and not others and acc[0].value == ("idx", cnt, j) and _pos(acc[0].node) < _pos(pre[0].node) and \
-                    tb is not None and tb.init is not None and ctx.term(tb.init) == num(0) and not any(a is pre[0].loops[0] for a in ancestors(tb.node))
-            okp = r[1:5] == (num(0), ROWS, False, False) and pre[0].index == lin_add(j, num(1)) and rec
+                    tb is not None and tb.init is not None and ctx.term(tb.init) in (num(0), ("idx", ("field", at, "col_start"), num(0))) and not any(a is pre[0].loops[0] for a in ancestors(tb.node))
+            full_rows = r[1:5] == (num(0), ROWS, False, False) or (okc and r[1] == num(0) and r[2] == ("len", cnt) and not r[3] and not r[4])    # (count has one slot per row)
+            okp = full_rows and pre[0].index == lin_add(j, num(1)) and rec
         # the scatter's counters: all zero, one per row, when the scatter starts (the count vector reset by assignment or
         # fill, or a fresh vector)
         cnt2 = c2.target
@@ -457,6 +466,12 @@ def check_transpose(rep, pdb, walks, key):
         oks = sr.kind == "set" and sr.target == ("field", at, "row_index") and sr.value == i2 and sr_idx == idx and \
             sv.kind == "set" and sv.target == ("field", at, "val") and sv.value == ("idx", VAL, j3) and sv_idx == idx and \
             c2.kind == "upd" and c2.index == rr and c2.value == num(1) and c2.op == "+=" and _pos(c2.node) > _pos(sv.node) and _pos(c2.node) > _pos(sr.node)
+        if not oks and sr.index[0] == "var" and sr.index == sv.index and sr_idx == idx:
+            # the slot is computed into a local first (`let index = start[r] + count[r]`): the counter may be bumped any time after that
+            ib = ctx.binds.get(sr.index[1])
+            oks = ib is not None and not ib.mut and sr.kind == "set" and sr.target == ("field", at, "row_index") and sr.value == i2 and \
+                sv.kind == "set" and sv.target == ("field", at, "val") and sv.value == ("idx", VAL, j3) and \
+                c2.kind == "upd" and c2.index == rr and c2.value == num(1) and c2.op == "+=" and _pos(c2.node) > _pos(ib.node)
         if okc and okp and not oks and sr_idx == sv_idx and sr_idx[0] == "idx" and sr_idx[1][0] == "var" and sr_idx[2] == rr:
             # a next-free-slot array instead of start + count: `next = at.col_start[..rows].to_vec()`, slot next[r], then next[r] += 1
             nx = sr_idx[1]
